@@ -268,6 +268,37 @@ def rule_r3(facts, rep, rid="C20-R3"):
     rep.floor(rid, "accessor obligations", n, 100)
 
 
+def rule_r3b(facts, rep, rid="C20-R3b"):
+    """Ownership walk: Graph::node_key / NodePointer::node_key climb `prev` until a node answers key(); only the root (Document) may."""
+    f = facts.fn("GraphNode::key")
+    rep.saw_fn(f)
+    ms = match_arms_on(f, "GraphNode")
+    if not ms:
+        rep.anchor_missing(rid, "match on GraphNode in GraphNode::key")
+        return
+    some = []
+    for arm in ms[0]["arms"]:
+        body = arm["body"]
+        txt = fb.show(body)
+        if "None" in txt and "Some" not in txt:
+            continue
+        some += [fb.last_seg(v) for v in fb.pat_variants(arm["pat"])]
+    key = f.def_ + "|only-roots-have-a-key"
+    if some == ["Document"]:
+        rep.ok(rid, key, "key() is Some only for GraphNode::Document", f.loc)
+    else:
+        rep.violation(rid, key, "GraphNode::key() answers Some for %s: the walk that finds the note a block belongs to (node_key climbs prev until key() is Some) stops at the first such node, "
+                      "so that block and every block after it are attributed to another note" % some, f.loc)
+    nk = facts.fn("Graph::node_key")
+    rep.saw_fn(nk)
+    t = fb.show_canon(nk, nk.body).replace(" ", "")
+    key = nk.def_ + "|climbs-prev-until-root"
+    if "self.graph_node(P1).key()" in t and "self.node_key(self.graph_node(P1).prev_id()" in t:
+        rep.ok(rid, key, "match graph_node(id).key() { Some(k) => k, None => node_key(prev_id) }", nk.loc)
+    else:
+        rep.violation(rid, key, "Graph::node_key no longer climbs prev_id() until a node has a key", nk.loc)
+
+
 def rule_r4(facts, rep, rid="C20-R4"):
     f = facts.fn("Arena::delete_branch")
     rep.saw_fn(f)
@@ -315,6 +346,12 @@ def rule_r4(facts, rep, rid="C20-R4"):
                         probs.append("the recursive step `%s` is only taken in some arms of a match on the node kind; for %s the child/next links are not followed" % (fb.show(x)[:50], skipped))
             if p.get("k") == "if" and p["c"].get("k") != "letx":
                 probs.append("the recursive step `%s` is guarded by `%s`" % (fb.show(x)[:40], fb.show(p["c"])[:50]))
+    # no early exit before the recursive steps (`if let Table(..) = node { ..; return .. }`)
+    rec_pos = [(x.get("s") or [0])[0] for x in fb.calls_in(f.body) if fb.callee(x) == f.def_]
+    for r_ in [y for y in fb.walk(f.body, into_closures=False) if y.get("k") == "ret"]:
+        if rec_pos and (r_.get("s") or [0])[0] < max(rec_pos):
+            guard = [p for p in c.parents(r_) if p.get("k") in ("if", "match")]
+            probs.append("an early `return` under `%s` leaves delete_branch before its child/next links were followed" % (fb.show(guard[0].get("c") or guard[0].get("e"))[:60] if guard else "?"))
     if probs:
         rep.violation(rid, key, "; ".join(dict.fromkeys(probs)) + " — parts of the old version stay live (ghost blocks, ghost backlinks)", f.loc)
     else:
@@ -395,3 +432,5 @@ def run(facts, rep, tier):
     rule_r4(facts, rep)
     c04.rule_r5(facts, rep, "C20-R5")
     rule_r6(facts, rep)
+    rep.rule("C20-R3b", "Asking a block for its note gives the owner: GraphNode::key() is Some only for the root kind (Document), and Graph::node_key climbs prev until then.")
+    rule_r3b(facts, rep)
